@@ -161,6 +161,15 @@ theorem base_statement_safe {Γ : Ctx} {L L' : List LoopSpec} {fs fs' : List Exp
   | none => simp [hq] at hc'
   | some f => exact (stmtA_sound S' hw' hq).1
 
+/-- **points_are_reach_points** (model ↔ tie): every situation that the model reports for
+a program point — `points`, what the driver prints for the op `pt k`, which the harness
+compares with the REAL checker's `assert false` probe at that line — is the situation
+of a syntactic point of `Reach`, i.e. one of the situations `facts_hold` is about; and
+every run-time point of `Reach` is such a syntactic point (`reach_syn`). -/
+theorem points_are_reach_points (s : FStmt) (L : List LoopSpec) (fs fs' : List Expr)
+    (h : some fs' ∈ points L (some fs) s) : ∃ L' s', SynReach L fs s L' fs' s' :=
+  (points_syn s).1 L fs (some fs') fs' h rfl
+
 /-! ## the axioms half meets the facts half -/
 
 /--
